@@ -152,7 +152,9 @@ def _evaluate(case):
                 got = f(arg)
                 if isinstance(arg, (bool, int)) or type(arg).__name__.startswith("int"):
                     n = int(arg)
-                    out = "accept int %d" % (sys.maxsize if n == -1 else n) if repr(got) == repr(f(n)) else "accept-but-differs"
+                    # -1 = no limit: the evaluation runs until the interpreter's stack gives out, so two runs need not
+                    # agree (how deep that is depends on what has been called before); only acceptance is judged
+                    out = "accept int %d" % (sys.maxsize if n == -1 else n) if n == -1 or repr(got) == repr(f(n)) else "accept-but-differs"
                 else:
                     fr = Fraction(arg)
                     out = "accept frac %d %d" % (fr.numerator, fr.denominator)
